@@ -183,6 +183,19 @@ func vfSimpleHistory(t *testing.T, rng *rand.Rand, randsub bool, nops int) (lit 
 				data := []byte(fmt.Sprintf("%d:payload", id))
 				ts := vfTopic(tp)
 				from, author := "None", "None"
+				if rng.Intn(10) == 0 {
+					// a local-only publication: for the in-process subscribers, never for the router
+					if err := topicOf(tp).Publish(ctx, data, WithLocalPublication(true)); err != nil {
+						t.Fatal(err)
+					}
+					synctest.Wait()
+					vfEval(ps, func() {})
+					for _, s := range subs {
+						vfDrainSub(s)
+					}
+					emit(fmt.Sprintf("RLocalOnly %s", msgLit(id, tp, from, author)))
+					continue
+				}
 				if rng.Intn(2) == 0 {
 					if err := topicOf(tp).Publish(ctx, data); err != nil {
 						t.Fatal(err)
